@@ -142,7 +142,9 @@ def restore_typestate(ctx: Ctx, rid: str):
         if not fills:
             continue
         clears = [m for m in roles.attr_writers(flag, drv.cls) if roles.fq(m.func) in reach or m.func is ep]
-        ok = any(isinstance(getattr(m.node, 'value', None), ast.Constant) and m.node.value.value is False for m in clears)
+        # the flag is written with False, or with the value that was saved (anything but the literal True)
+        ok = any(not (isinstance(getattr(m.node, 'value', None), ast.Constant) and m.node.value.value is True)
+                 for m in clears)
         ctx.check(ok, rid, ep.short, ep.loc(),
                   f'{ep.short} fills the search data and clears the first-iteration flag',
                   f'{ep.short} puts trials into the search data but never clears the first-iteration flag '
@@ -773,10 +775,10 @@ def check(ctx: Ctx):
     if C.want(ctx, 'R03.9'):
         r03_9(ctx)
     if C.want(ctx, 'R-LINK'):
-        r_link(ctx)
-        r_link_private(ctx)
+        r_link(ctx.full_view())
+        r_link_private(ctx.full_view())
     if C.want(ctx, 'R03.3'):
-        restore_typestate(ctx, 'R03.3')
+        restore_typestate(ctx.full_view(), 'R03.3')
     cands = C.roles_of(ctx).task_wrapper_candidates()
     if len(cands) > 1:
         ctx.rule('R03.2', 'who may evaluate: on the global path only the task wrapper dispatches to Problem.Calculate')
